@@ -448,12 +448,12 @@ func (in *Interp) runPath(fn *ssa.Function, prefix []decision, baseCfg *HarnessC
 	in.rollback(0)
 	res.Steps += in.steps
 	switch end {
-	case "done", "panic":
+	case "done", "panic", "stop":
 		res.PathsDone++
 	case "assume":
 		res.PathsAssumeCut++
 	}
-	if end == "done" || end == "panic" || end == "assume" {
+	if end == "done" || end == "panic" || end == "assume" || end == "stop" {
 		for _, c := range in.pathCovers {
 			res.Covers[c]++
 		}
